@@ -137,3 +137,40 @@ m f=3 1609460400000000000`
 		fmt.Sprintf("values at 0m and 20m; ascending: {%s}; %s returns {%s}, want the same rows newest first {%s}", asc, q, got, want),
 		map[string]any{"line_protocol": lp, "query": q, "got": got, "want": want})
 }
+
+// LIMIT/OFFSET in a statement with several calls are applied to every call's rows separately
+// (query.buildFieldIterator wraps each call iterator in a limit iterator) before the rows are
+// joined on time by the multi-scanner cursor: when the calls report different intervals
+// (fill(none), fields with different coverage) the joined series has more than LIMIT rows.
+func TestKnown_limit_offset_per_call_in_multi_call_statement(t *testing.T) {
+	lp := `m a=1,b=10 1609459200000000000
+m b=20 1609459800000000000
+m a=3 1609460400000000000`
+	s, cleanup := lpStack(t, lp)
+	defer cleanup()
+	render := func(q string) string {
+		rows, err := runQuery(s, q)
+		if err != nil {
+			rec.Inconclusive(fmt.Sprintf("known-finding reproducer: %s: %v", q, err))
+			t.Skip(err)
+		}
+		var out []string
+		for _, r := range rows {
+			for _, v := range r.Values {
+				out = append(out, fmt.Sprintf("%ds=%v,%v", (v[0].(time.Time).UnixNano()-baseTime)/1e9, v[1], v[2]))
+			}
+		}
+		return strings.Join(out, " ")
+	}
+	w := ` WHERE time >= '2021-01-01T00:00:00Z' AND time < '2021-01-01T00:30:00Z' GROUP BY time(10m) fill(none)`
+	all := render(`SELECT min(a), max(b) FROM m` + w)
+	if all != "0s=1,10 600s=<nil>,20 1200s=3,<nil>" {
+		t.Fatalf("unexpected result without LIMIT: %s", all)
+	}
+	q := `SELECT min(a), max(b) FROM m` + w + ` LIMIT 2`
+	got := render(q)
+	want := "0s=1,10 600s=<nil>,20"
+	rec.Known(t, "TestKnown_limit_offset_per_call_in_multi_call_statement", keyLimitPerCall, got != want,
+		fmt.Sprintf("one series, a at 0m and 20m, b at 0m and 10m; without LIMIT: {%s}; %s returns {%s}, want the first two rows {%s}: each call keeps its own first two intervals", all, q, got, want),
+		map[string]any{"line_protocol": lp, "query": q, "got": got, "want": want})
+}
